@@ -23,12 +23,13 @@ SPECS = {
     'S4': {'kind': 'scalar', 'validators': ['r0_10', 'is_int']},
     'S5': {'kind': 'scalar', 'validators': ['boom11', 'r0_10m']},
     'S6': {'kind': 'scalar', 'validators': ['r0_100'], 'cond': ['A', 'r0_4']},
+    'S7': {'kind': 'scalar', 'transform': 'roundm1', 'validators': ['r0_10']},     # precision -1: rounds to tens (11 -> 10, 5 -> 0)
     'D1': {'kind': 'dim1', 'validators': ['p_r0_10']},
     'D2': {'kind': 'dim1', 'transform': 'x2', 'validators': ['p_r0_10']},
     'D3': {'kind': 'dim2', 'validators': ['p_r0_10']},
     'D4': {'kind': 'dim1', 'validators': ['p_boom', 'p_r0_10']},
 }
-PAIRS = [('D4', 'D1'), ('D4', 'D3'), ('S1', 'D1'), ('S2', 'D2'), ('S4', 'D3'), ('S5', 'D4'), ('S6', 'S0'), ('S3', 'S1'), ('D1', 'D2')]
+PAIRS = [('D4', 'D1'), ('D4', 'D3'), ('S1', 'D1'), ('S2', 'D2'), ('S4', 'D3'), ('S5', 'D4'), ('S6', 'S0'), ('S3', 'S1'), ('D1', 'D2'), ('S7', 'S0')]
 SCALAR_VALUES = [5, 9.5, 11, 1, None, NAN, 'x', 10]     # (10 = 2 x 5: an override whose raw value equals the recorded one)
 DIM_VALUES = [3, 11]
 
@@ -66,6 +67,8 @@ def build_measurement(name, spec):
     m = m.with_transform(lambda v: v * 2)
   elif spec.get('transform') == 'round0':
     m = m.with_precision(0)
+  elif spec.get('transform') == 'roundm1':
+    m = m.with_precision(-1)
   for code in spec.get('validators', []):
     m = m.with_validator(build_validator(code))
   if spec.get('cond'):
